@@ -51,7 +51,9 @@ KeyLeafValue(x) ==
 
 \* document values are sequences (TLC cannot compare strings with sequences inside one
 \* function set): a leaf value v is <<v>>, a leaf-list value is the list itself
-DocValues(x) == IF x \in LeafListDP THEN LLVals
+\* (a JSON document may also carry the empty array for a leaf-list: it replaces the leaf-list
+\* by nothing; a gNMI leaflist_val must not be empty, so direct leaf-list payloads stay non-empty)
+DocValues(x) == IF x \in LeafListDP THEN LLVals \cup {<< >>}
                 ELSE IF IsKeyLeaf(x) THEN {<<KeyLeafValue(x)>>} ELSE {<<v>> : v \in Vals}
 
 Docs(p) == UNION {[D -> UNION {DocValues(x) : x \in D}] : D \in DocDomains(p)} 
